@@ -174,6 +174,18 @@ func c01Layouts(tier string, f func(i int, l pegen.Layout)) {
 			f(i, l)
 			i++
 		}
+		// SizeOfHeaders reaching into the first section (by 1, 8, 13 bytes; as far as the whole section), with
+		// trailing data shorter than, equal to and longer than the overlap: a parser may refuse these; if
+		// it accepts, every section byte is covered and the digest is the literal one
+		for _, ov := range []int{1, 8, 13} {
+			for _, tr := range []int{0, ov - 1, ov, ov + 5, 40} {
+				if tr < 0 {
+					continue
+				}
+				f(i, pegen.Layout{PE32Plus: plus, Lfanew: 0x40, Secs: []pegen.Sec{{RawSize: 13}, {RawSize: 16}}, Trailing: tr, HdrOver: ov})
+				i++
+			}
+		}
 		// a DOS stub of 64 KiB and more: e_lfanew (a 32-bit field) at, just below and above the 16-bit limit
 		for _, lf := range []int{0xfff8, 0x10000, 0x10040, 0x23458} {
 			for _, ce := range certs[:2] {
@@ -280,7 +292,7 @@ func c01Describe(l pegen.Layout) string {
 	if l.PE32Plus {
 		f = "PE32+"
 	}
-	return fmt.Sprintf("%s lfanew=%#x secs=%v order=%v slack=%d trailing=%d certs=%v big=%v numrva=%d symbols=%d", f, l.Lfanew, l.Secs, l.FileOrder, l.HdrSlack, l.Trailing, l.Certs, l.Big, l.NumRva, l.Symbols)
+	return fmt.Sprintf("%s lfanew=%#x secs=%v order=%v slack=%d trailing=%d certs=%v big=%v numrva=%d symbols=%d", f, l.Lfanew, l.Secs, l.FileOrder, l.HdrSlack, l.Trailing, l.Certs, l.Big, l.NumRva, l.Symbols) + fmt.Sprintf(" hdrover=%d", l.HdrOver)
 }
 
 // region names the part of the image a byte offset lies in (for signatures).
@@ -325,6 +337,8 @@ func c01Image(c *hx.Ctx, img []byte, desc string, masks []byte, flipStride int) 
 		case pn != nil:
 			c.Outcome("panic")
 			c.Violation("C01 well-formed image: digest computation ends in "+pn.String(), map[string]any{"layout": desc, "image": hx8(img)})
+		case perr != nil && im.Tolerated != "":
+			c.Outcome("not-well-formed-image-refused(allowed)")
 		case perr != nil:
 			c.Outcome("parse-error")
 			c.Violation("C01 well-formed image rejected by the parser", map[string]any{"layout": desc, "image": hx8(img), "error": perr.Error()})
@@ -342,7 +356,9 @@ func c01Image(c *hx.Ctx, img []byte, desc string, masks []byte, flipStride int) 
 			continue
 		}
 		got, perr, pn := libDigestVia(rk.mk(img))
-		if pn != nil || perr != nil || !bytes.Equal(got, want) {
+		if pn == nil && perr != nil && im.Tolerated != "" {
+			c.Outcome("not-well-formed-image-refused(allowed)")
+		} else if pn != nil || perr != nil || !bytes.Equal(got, want) {
 			c.Outcome("reader-kind-mismatch")
 			c.Violation("C01 digest depends on the io.ReaderAt implementation the image is read through ("+rk.name+")", map[string]any{"layout": desc, "library": hx8(got), "specification": hx8(want), "error": fmt.Sprint(perr, pn)})
 		} else {
